@@ -244,3 +244,157 @@ Definition run_call (tsep : str) (t : tree) (c : hcall) : res tree :=
   | CPrune pp exact sep d => prune_tree tsep t pp exact sep d
   | CSubtree s d => get_subtree tsep t s d
   end.
+
+(* =============================================================================================
+   General form: the start node is any node of a bigger tree, and the tree may be a BinaryNode
+   tree with empty child slots.
+
+   Inner start node (`tree` is the node at position st of the tree t):
+     * tree.copy() = copy.deepcopy: the whole tree is copied through the parent pointers; the
+       functions go on with the copy of the start node, which is still attached to the copied
+       ancestors;
+     * tree.sep and node.path_name are read from the real root (node.py:84-92, :112-121): path
+       names are absolute;
+     * find_path(tree_copy, path) = preorder_iter from the start node: only nodes of its subtree
+       are candidates;
+     * child.ancestors runs up to the real root, so ancestors_to_prune contains the start node's
+       own ancestors and their other children are cut loose as well — in the copy, above the node
+       that is returned.  Neither the start node nor one of its ancestors is ever cut loose (each
+       is an ancestor of, or is, every target), so what hangs below the returned node is the start
+       node's subtree minus the subtrees cut loose inside it;
+     * prune_tree returns tree_copy: the copy of the start node, *not* detached from the copied
+       ancestors (its depth attribute stays S (length st)); get_subtree detaches (`tree.parent =
+       None`), the result is a root;
+     * levelordergroup_iter(tree_copy) starts at the start node and the groups are counted with
+       enumerate(..., 1): max_depth is relative to the start node.
+
+   BinaryNode trees are encoded as rose trees in which every real node has exactly two kids and an
+   empty slot is the placeholder HOLE (empty name; a real node's name is never empty):
+     * preorder_iter / levelordergroup_iter skip empty slots (`if tree and ...`, `if _child`);
+     * `child.parent = None` empties the slot (binarynode.py:187-188), the other slot keeps its
+       place; `del node.children` leaves two empty slots (binarynode.py deleter after fix F2).
+   ============================================================================================= *)
+
+Definition HOLE : tree := T None [] [] [].
+Definition is_hole (t : tree) : bool := is_nil (tname t).
+Definition is_hole_at (t : tree) (p : pos) : bool :=
+  match subtree_at t p with Some x => is_hole x | None => false end.
+
+(* absolute positions of the candidates of a search started at the node at st, pre-order *)
+Definition search_space (bin : bool) (t : tree) (st : pos) : list pos :=
+  match subtree_at t st with
+  | None => []
+  | Some s => map (app st) (filter (fun p => negb bin || negb (is_hole_at s p)) (positions s))
+  end.
+
+Definition find_paths_pos_at (bin : bool) (tsep : str) (t : tree) (st : pos) (path : str) : list pos :=
+  let pn := rstrip path tsep in
+  filter (fun q => endswith (node_path_name tsep t q) pn) (search_space bin t st).
+
+Definition find_path_at (bin : bool) (tsep : str) (t : tree) (st : pos) (path : str) : res (option pos) :=
+  match find_paths_pos_at bin tsep t st path with
+  | [] => Ret None
+  | [p] => Ret (Some p)
+  | _ :: _ :: _ => Raise SearchError
+  end.
+
+Fixpoint locate_at (bin : bool) (tsep sep : str) (t : tree) (st : pos) (paths : list str) : res (list pos) :=
+  match paths with
+  | [] => Ret []
+  | path :: rest =>
+      match find_path_at bin tsep t st (replace path sep tsep) with
+      | Raise e => Raise e
+      | Ret None => Raise NotFoundError
+      | Ret (Some p) =>
+          match locate_at bin tsep sep t st rest with
+          | Raise e => Raise e
+          | Ret ps => Ret (p :: ps)
+          end
+      end
+  end.
+
+(* BinaryNode: a child that is cut loose leaves an empty slot *)
+Fixpoint filter_tree_b (alive : pos -> bool) (t : tree) : tree :=
+  match t with
+  | T g n a ks =>
+      T g n a (mapi_from (fun i k =>
+                 if is_hole k then k
+                 else if alive [i] then filter_tree_b (fun p => alive (i :: p)) k else HOLE) 0 ks)
+  end.
+
+(* what hangs below the returned node: s is the start node's subtree, positions asked absolute *)
+Definition prune_paths_at (bin : bool) (targets : list pos) (exact : bool) (st : pos) (s : tree) : tree :=
+  let alive := fun p => negb (detached targets exact (st ++ p)) in
+  if bin then filter_tree_b alive s else filter_tree alive s.
+
+Fixpoint del_children_at_b (p : pos) (t : tree) : tree :=
+  match t with
+  | T g n a ks =>
+      match p with
+      | [] => T g n a [HOLE; HOLE]
+      | i :: p' => T g n a (upd_nth i (del_children_at_b p') ks)
+      end
+  end.
+
+Definition depth_cut_x (bin : bool) (max_depth : nat) (t : tree) : tree :=
+  match max_depth with
+  | 0 => t
+  | S k =>
+      if bin
+      then fold_left (fun acc p => del_children_at_b p acc)
+                     (filter (fun p => negb (is_hole_at t p)) (level_pos k t)) t
+      else fold_left (fun acc p => del_children_at p acc) (level_pos k t) t
+  end.
+
+Definition prune_tree_at (bin : bool) (tsep : str) (t : tree) (st : pos) (pp : ppaths) (exact : bool)
+           (sep : str) (max_depth : nat) : res tree :=
+  let paths := norm_paths pp in
+  if is_nil paths && Nat.eqb max_depth 0 then Raise ValueError else
+  if is_nil tsep || is_nil sep then Raise Unmodelled else
+  let c := copy_tree t in
+  match subtree_at c st with
+  | None => Raise Unmodelled                       (* st is not a node of t *)
+  | Some s =>
+      let by_path :=
+          if is_nil paths then Ret s else
+          match locate_at bin tsep sep c st paths with
+          | Raise e => Raise e
+          | Ret targets => Ret (prune_paths_at bin targets exact st s)
+          end in
+      match by_path with
+      | Raise e => Raise e
+      | Ret s1 => Ret (depth_cut_x bin max_depth s1)
+      end
+  end.
+
+Definition get_subtree_at (bin : bool) (tsep : str) (t : tree) (st : pos) (name_or_path : str)
+           (max_depth : nat) : res tree :=
+  if is_nil tsep then Raise Unmodelled else
+  let c := copy_tree t in
+  let located :=
+      if is_nil name_or_path then Ret st else
+      match find_path_at bin tsep c st name_or_path with
+      | Raise e => Raise e
+      | Ret None => Raise ValueError
+      | Ret (Some p) => Ret p
+      end in
+  match located with
+  | Raise e => Raise e
+  | Ret q =>
+      match subtree_at c q with
+      | None => Raise Unmodelled
+      | Some s => if Nat.eqb max_depth 0 then Ret s
+                  else Ret (depth_cut_x bin max_depth (copy_tree s))
+      end
+  end.
+
+Definition run_call_at (bin : bool) (tsep : str) (t : tree) (st : pos) (c : hcall) : res tree :=
+  match c with
+  | CPrune pp exact sep d => prune_tree_at bin tsep t st pp exact sep d
+  | CSubtree s d => get_subtree_at bin tsep t st s d
+  end.
+
+(* node.depth of the returned node: prune_tree returns the copy of the start node still attached to
+   its copied ancestors; get_subtree returns a root *)
+Definition top_depth (st : pos) (c : hcall) : nat :=
+  match c with CPrune _ _ _ _ => S (length st) | CSubtree _ _ => 1 end.
